@@ -1,6 +1,7 @@
 import Ruint.Lemmas.Shift
 import Ruint.Lemmas.GenShift
 import Ruint.Lemmas.GenShiftWrap
+import Ruint.Lemmas.GenShiftOps
 
 /-!
 # C05 — shifts and rotations move bits exactly and report lost bits exactly
@@ -457,5 +458,13 @@ theorem gen_rotate_eq (bits : ℕ) (hN : nlimbs bits < 2 ^ 64) (hb : bits < 2 ^ 
     Ruint.Gen.uint_rotate_left (nlimbs bits + 1) bits (nlimbs bits) a s = rotateLeft bits a s
     ∧ Ruint.Gen.uint_rotate_right (nlimbs bits + 1) bits (nlimbs bits) a s = rotateRight bits a s :=
   ⟨Ruint.GenShiftWrap.rotate_left_eq bits hN hb a ha s, Ruint.GenShiftWrap.rotate_right_eq bits hN hb a ha s⟩
+
+/-- `Shl<Uint>` / `Shr<Uint>` (and through them the `&Uint` and assign forms) as regenerated from `src/bits.rs` — the
+    `BITS == 0` shortcut, the test of every limb of the amount above the lowest, the forward to `wrapping_shl` / `wrapping_shr` —
+    equal the models of `shl_uint_spec` / `shr_uint_spec`. -/
+theorem gen_shift_by_uint_eq (bits : ℕ) (hN : nlimbs bits < 2 ^ 64) (a rhs : List ℕ) (ha : Canon bits a) :
+    Ruint.Gen.uint_shl_uint (nlimbs bits + 1) bits (nlimbs bits) a rhs = shlUint bits a rhs
+    ∧ Ruint.Gen.uint_shr_uint (nlimbs bits + 1) bits (nlimbs bits) a rhs = shrUint bits a rhs :=
+  ⟨Ruint.GenShiftOps.shl_uint_eq bits hN a rhs ha, Ruint.GenShiftOps.shr_uint_eq bits hN a rhs ha⟩
 
 end Ruint.C05
